@@ -164,14 +164,6 @@ class AsyncSocket(base_socket.BaseSocket):
 
         if self.connected:
             # the socket was already connected, so this is an upgrade
-            if self._upgrade_attempt:
-                # another WebSocket is in the middle of the handshake (or
-                # has completed it): only one can carry the session
-                self.server.logger.info(
-                    '%s: Refused websocket upgrade, another one is in '
-                    'progress', self.sid)
-                return
-            self._upgrade_attempt = True
             self.upgrading = True  # hold packet sends during the upgrade
 
             try:
@@ -196,20 +188,23 @@ class AsyncSocket(base_socket.BaseSocket):
                     return
                 decoded_pkt = packet.Packet(encoded_packet=pkt)
                 if decoded_pkt.packet_type != packet.UPGRADE:
-                    self.upgraded = False
                     self.server.logger.info(
                         ('%s: Failed websocket upgrade, expected UPGRADE '
                          'packet, received %s instead.'),
                         self.sid, pkt)
+                    return
+                if self.upgraded:
+                    # another WebSocket has completed the handshake in the
+                    # meantime: only one can carry the session
+                    self.server.logger.info(
+                        '%s: Failed websocket upgrade, the session has '
+                        'been upgraded on another connection', self.sid)
                     return
                 self.upgraded = True
             finally:
                 # however the handshake ends (including an oversize or
                 # undecodable frame or a closed socket), resume polling
                 self.upgrading = False
-                if not self.upgraded:
-                    # a failed attempt does not stand in the way of the next
-                    self._upgrade_attempt = False
         else:
             self.connected = True
             self.upgraded = True
